@@ -358,6 +358,19 @@ def run(ctx):
         mass1 = mass0 + q[0] * portion * (mass_sym("D") - mass_sym("H1"))
         eq(ctx, "R3", f"replace ({label}): density scales with the mass (cell volume kept)",
            _generic_arm(I.getattr(r, "density"), p), d * mass1 / mass0, s_sub)
+    # the same substitution asked for again after the first result was given another density: every request is computed from
+    # the formula it is asked of (results are the caller's objects: nothing handed out is handed out, or copied, again)
+    r1 = I.call(I.getattr(f, "replace"), [H1, D], {})
+    I.setattr(r1, "density", sp.Symbol("rho_edited", positive=True))
+    r2 = I.call(I.getattr(f, "replace"), [H1, D], {})
+    ctx.check(r2 is not r1, "R3", "replace asked twice returns two formula objects", "the same object is handed out twice", s_sub)
+    eq(ctx, "R3", "replace asked again after the first result's density was edited: density scales with the mass of the formula asked",
+       _generic_arm(I.getattr(r2, "density"), p), d * (mass0 + q[0] * (mass_sym("D") - mass_sym("H1"))) / mass0, s_sub)
+    rn1 = I.call(I.getattr(I.call(fm, [{H1: q[0], O: q[1]}], {}), "replace"), [H1, D], {})
+    I.setattr(rn1, "density", sp.Symbol("rho_edited", positive=True))
+    rn2 = I.call(I.getattr(I.call(fm, [{H1: q[0], O: q[1]}], {}), "replace"), [H1, D], {})
+    ctx.check(I.getattr(rn2, "density") is None, "R3", "replace on an equal formula of unknown density, after an earlier result was given one, leaves it unknown",
+              f"density = {_s(I.getattr(rn2, 'density'))}", s_sub)
     # substitution by a different element, an ion and an isotope of another element: mass scaling, not natural density
     for kind in ("element", "ion_element", "isotope"):
         tgt = A[kind]
@@ -390,7 +403,7 @@ def run(ctx):
         eq(ctx, "R3", f"replace ({label}) in a formula with the source on several sites: density scales with the mass",
            _generic_arm(I.getattr(r, "density"), p), d * (mass_s + (q[0] + q[2]) * portion * (mass_sym("D") - mass_sym("H1"))) / mass_s, s_sub)
     I.positive = saved_pos
-    ctx.floor("R3", 17)
+    ctx.floor("R3", 20)
 
     # ---- R4 volume -----------------------------------------------------------
     s_vol = fsite(ctx, "formulas.Formula.volume")
